@@ -201,7 +201,7 @@ def c14(tier, seed):
     # all byte values, constant rows, random precisions on the large lengths, extra lengths beyond the model
     for up in (0, 1):
         rows += [(1, -1, up, "all"), (256, -1, up, "all"), (256, 77, up, "all"), (33, -1, up, "ff"), (33, 9, up, "zero"), (1025, -1, up, "ff"), (2049, 4097, up, "all")]
-        for n in ([63, 64, 65, 255, 257, 1000] if tier == "quick" else [63, 64, 65, 255, 256, 257, 511, 512, 1000, 3072, 3073, 5000]):
+        for n in ([63, 64, 65, 255, 257, 1000, 1536, 6144, 8192, 10000] if tier == "quick" else [63, 64, 65, 255, 256, 257, 511, 512, 1000, 1536, 3072, 3073, 5000, 6144, 8192, 10000]):
             for p in sorted({-1, 0, 1, n, 2 * n - 1, 2 * n, 2 * n + 1, rng.randint(0, 2 * n), rng.randint(0, 2 * n)}):
                 rows.append((n, p, up, "lin"))
         for n in ([1024, 1025, 2049] if tier == "quick" else [1023, 1024, 1025, 2047, 2048, 2049, 3000, 4096]):
